@@ -2,7 +2,8 @@
 
 Pipeline (spec/Creds.tla, spec/CredsObs.tla, harness/fam/creds):
   1. TLC enumerates every case = call path {HTTP getter, ChartDownloader by repo/chart name, ChartDownloader by URL,
-     ChartPathOptions.LocateChart with RepoURL, action.Pull with RepoURL, downloader.Manager.Update} x repository URL x
+     ChartPathOptions.LocateChart with RepoURL, action.Pull with RepoURL, downloader.Manager.Update with one dependency, and with
+     two dependencies from a private and a public repository in either order} x TLS settings on the repository entry x repository URL x
      form of the chart URL in the index (relative, absolute same origin, or differing in exactly one of scheme, host,
      sub-domain, host-name suffix, port, host case, userinfo, userinfo that looks like the repository host, default-port
      spelling, path) x pass-credentials x redirect of the chart URL to an unrelated domain; it plays the request flow of
@@ -56,8 +57,8 @@ def known_for(o, listed):
 def describe(o):
     rs = ["%s %s://%s%s" % (r["kind"], r["scheme"], r["rawhost"], " +Authorization" if r["auth"] else "")
           for r in o["reqs"]]
-    return "path=%s variant=%s passAll=%s redirect=%s repo=%s chart=%s requests=[%s]" % (
-        o["path"], o["variant"], o["passAll"], o["redirect"], o["repoURL"], o["chartURL"], "; ".join(rs))
+    return "path=%s variant=%s passAll=%s redirect=%s tls=%s order=%s repo=%s chart=%s requests=[%s]" % (
+        o["path"], o["variant"], o["passAll"], o["redirect"], o.get("tls"), o.get("order"), o["repoURL"], o["chartURL"], "; ".join(rs))
 
 
 def run_cases(d, hv, cases, seed, concs):
@@ -125,10 +126,14 @@ def run(pid, tier, seed, replay=None):
     for o in obs:
         c = bycase[o["id"]]
         nreq += len(o["reqs"])
-        ok = [r["kind"] for r in o["reqs"]] == [m["kind"] for m in c["model"]]
+        got = [(r["kind"], r["host"], r["auth"]) for r in o["reqs"]]
+        want = [(m["kind"], m["url"]["host"], m["auth"]) for m in c["model"]]
+        if o["path"] == "manager2":      # the two index files are fetched concurrently
+            got, want = sorted(got), sorted(want)
+        ok = [g[:2] for g in got] == [w[:2] for w in want]
         if not ok:
             incomplete += 1
-        elif all(r["auth"] == m["auth"] for r, m in zip(o["reqs"], c["model"])):
+        elif got == want:
             conform += 1
         ro = origin(o["repo"])
         if any(r["auth"] and r["ours"] and (r["scheme"], r["host"], r["port"]) == ro for r in o["reqs"]):
@@ -141,7 +146,7 @@ def run(pid, tier, seed, replay=None):
         raise Inconclusive("the capture never saw the repository's credentials on a same-origin request of path(s) %s: "
                            "the check would be vacuous" % blind)
     if incomplete * 10 > len(obs):
-        ex = next(o for o in obs if [r["kind"] for r in o["reqs"]] != [m["kind"] for m in bycase[o["id"]]["model"]])
+        ex = next(o for o in obs if sorted(r["kind"] for r in o["reqs"]) != sorted(m["kind"] for m in bycase[o["id"]]["model"]))
         raise Inconclusive("%d of %d replays did not issue the requests of the model's flow, e.g. %s err=%s"
                            % (incomplete, len(obs), describe(ex), ex["err"][:300]))
 
@@ -169,7 +174,8 @@ def run(pid, tier, seed, replay=None):
         "traces_validated_against_impl": conform,
         "samples": [describe(o) for o in obs[:: max(1, len(obs) // 3)][:3]],
         "evaluations": nreq, "distinct_nontrivial": cross,
-        "rule": "cases = call path x repository URL x chart URL form x pass-credentials x redirect, all enumerated by TLC; "
+        "rule": "cases = call path x repository URL x chart URL form x pass-credentials x redirect x TLS settings of the repository entry x order of "
+                "two dependencies from two repositories, all enumerated by TLC; "
                 "evaluations = requests observed at the capture server and judged by CredsObs.tla; non-trivial = cases whose chart "
                 "URL is on another origin than the repository with pass-credentials off; traces_validated = replays whose observed "
                 "request sequence and Authorization flags equal the model's flow",
